@@ -147,6 +147,15 @@ def run(ctx, model=None):
         with impl.forced_debug():
             check_case(ctx, gen.all_dead_game(rng), model)
     import analysis as _an0
+    for k in range(6 if ctx.quick() else 100):
+        check_case(ctx, gen.with_odd_labels(gen.stopping_game(rng), rng)[0], model)
+        check_case(ctx, gen.with_odd_labels(gen.layered_tie_game(rng), rng)[0], model)
+    _envg = [gen.decimal_tie_game(rng, k_) for k_ in (P1, P2, P1, P2)] + [tie_game(rng) for _ in range(3)] + \
+        [gen.stopping_game(rng) for _ in range(3 if ctx.quick() else 40)]
+    _an0.environment_independence(ctx, _envg, "strategies-independent-of-process-environment", fields=[1, 3])
+    _an0.described_at_solve_time(ctx, [gen.stopping_game(rng, extra_finals=0.25) for _ in range(6 if ctx.quick() else 80)] +
+                                 [gen.multi_final_game(rng) for _ in range(3 if ctx.quick() else 30)],
+                                 "strategies-of-the-description-at-solve-time", fields=[1, 3])
     _an0.optimized_interpreter(ctx, [gen.layered_tie_game(rng) for _ in range(6)] + [tie_game(rng) for _ in range(6)], "exact-optimal-set", fields=[1])
     N = 300 if ctx.quick() else 30000
     for k in range(N):
@@ -184,4 +193,9 @@ def known_findings(ctx):
 def replay(ctx, viol):
     g = viol["input"]["game"]
     g["transition_list"] = [[tuple(t) for t in row] for row in g["transition_list"]]
+    import analysis as _an
+    if viol.get("clause") == "strategies-independent-of-process-environment":
+        return _an.environment_independence(ctx, [g], viol["clause"], fields=[1, 3])
+    if viol.get("clause") == "strategies-of-the-description-at-solve-time":
+        return _an.described_at_solve_time(ctx, [g], viol["clause"], fields=[1, 3])
     check_case(ctx, g, None, thr=viol["input"].get("thr"))
